@@ -216,8 +216,23 @@ class WfxW(Adapter):
         return f"natom={s['natom']}/{s['kind']}"
 
     def free_build(self, s):
+        import random
+
         x = free_build(s)
         x.extra.pop("mo_spin", None)
+        # the optional WFX sections the writer takes from `extra` (and the gradient): present or absent, zero included
+        rng = random.Random(s["seed"] ^ 0x5A5A)
+        if rng.random() < 0.7:
+            x.extra["num_core_electrons"] = rng.choice([0, 0, 2, 10])
+        if rng.random() < 0.5:
+            x.extra["nuc_viral"] = rng.choice([0.0, rng.uniform(-3, 3)])
+        if rng.random() < 0.5:
+            x.extra["full_virial_ratio"] = rng.choice([0.0, 2.0 + rng.uniform(-0.01, 0.01)])
+        if rng.random() < 0.4:
+            # the loader accepts exactly these (keywords, number of perturbations) pairs
+            x.extra["keywords"], x.extra["num_perturbations"] = rng.choice([("GTO", 0), ("GIAO", 3), ("CGST", 6)])
+        if rng.random() < 0.5:
+            x.atgradient = np.array([[rng.choice([0.0, rng.uniform(-1, 1)]) for _ in range(3)] for _ in range(x.natom)])
         return x
 
     def compare(self, x, y):
@@ -237,6 +252,15 @@ class WfxW(Adapter):
                 bad.append(("mo.energies", "orbital energies differ (or are attached to other orbitals)"))
         if (x.title or "<Created with IOData>") != y.title:
             bad.append(("title", f"{x.title!r} -> {y.title!r}"))
+        for key in ("num_core_electrons", "nuc_viral", "full_virial_ratio", "num_perturbations", "keywords", "virial_ratio"):
+            if key in x.extra and x.extra[key] is not None:
+                a, b = x.extra[key], y.extra.get(key)
+                same = b is not None and (a == b if isinstance(a, (str, int)) else abs(a - b) <= 1e-13 * max(1.0, abs(a)))
+                if not same:
+                    bad.append((f"extra.{key}", f"{a!r} -> {b!r}"))
+        if x.atgradient is not None:
+            if y.atgradient is None or np.abs(x.atgradient - y.atgradient).max() > 1e-13:
+                bad.append(("atgradient", "missing or different after reload"))
         return bad
 
 
